@@ -398,7 +398,8 @@ impl PtraceDumper {
         // tool, so we poll the status.
         const POLL_INTERVAL: Duration = Duration::from_millis(1);
         let proc_file = format!("/proc/{}/stat", self.pid);
-        let end = Instant::now() + timeout;
+        // A timeout too large to be represented as a point in time means no limit.
+        let end = Instant::now().checked_add(timeout);
 
         loop {
             if let Ok(ProcState::Stopped) = Stat::from_file(&proc_file)?.state() {
@@ -406,7 +407,7 @@ impl PtraceDumper {
             }
 
             std::thread::sleep(POLL_INTERVAL);
-            if Instant::now() > end {
+            if end.is_some_and(|end| Instant::now() > end) {
                 return Err(StopProcessError::Timeout);
             }
         }
